@@ -62,6 +62,13 @@ type unit struct {
 	valueFns bool
 	// package variables of function type whose calls are the Section variables env_<name> (applied to the arguments)
 	envFuncs map[string]bool
+	// calls into another package that another unit translates: package path -> that unit's module (the callee keeps its Go name)
+	depUnits map[string]string
+	// functions of this package that take the state receiver and are not translated: a call is logged like a call through an
+	// opaque field (field "", method = the function's name)
+	loggedFuncs map[string]bool
+	// the state receiver is assumed non-nil: `recv == nil` is false (the nil case is go2coq's nil-guard obligation)
+	recvNonNil bool
 }
 
 type stub struct {
@@ -95,6 +102,11 @@ var units = []unit{
 		only: []string{"WriteHeader", "Write", "maybeWriteHeader", "Status", "BytesWritten"},
 		imports: "Base.GoEff Base.GoExt", section: "Variable ans : nat -> oval.",
 		stateStructs: []string{"basicWriter"}, opaque: map[string][]string{"basicWriter": {"ResponseWriter", "tee"}}},
+	{out: "EventSrc", pkgDir: ".", files: []string{"event.go"}, only: []string{"write", "Enabled"},
+		imports: "Base.GoEff Base.GoExt Gen.JsonSrc", section: "Variable ans : nat -> oval.",
+		stateStructs: []string{"Event"}, opaque: map[string][]string{"Event": {"w"}},
+		depUnits:    map[string]string{"github.com/rs/zerolog/internal/json": "JsonSrc"},
+		loggedFuncs: map[string]bool{"putEvent": true}, recvNonNil: true},
 	{out: "LevelSrc", pkgDir: ".", files: []string{"log.go"}, only: []string{"String", "ParseLevel"},
 		imports: "Base.GoEff",
 		section: "Variable env_LevelTraceValue env_LevelDebugValue env_LevelInfoValue env_LevelWarnValue env_LevelErrorValue env_LevelFatalValue env_LevelPanicValue : list N.\nVariable env_LevelFieldMarshalFunc : Z -> list N.",
@@ -2792,6 +2804,17 @@ func (f *fnCtx) expr(e ast.Expr) string {
 			if _, isSlice := t.Underlying().(*types.Slice); isSlice {
 				fail("comparison of a slice with nil")
 			}
+			if idx, ok := e.X.(*ast.Ident); ok && f.self != nil && f.p.info.ObjectOf(idx) == f.self && f.p.u.recvNonNil {
+				if idy, ok := e.Y.(*ast.Ident); ok {
+					if _, isNil := f.p.info.ObjectOf(idy).(*types.Nil); isNil && (e.Op == token.EQL || e.Op == token.NEQ) {
+						// the receiver is assumed non-nil
+						if e.Op == token.EQL {
+							return "false"
+						}
+						return "true"
+					}
+				}
+			}
 			if of := f.selfOpaque(e.X); of != "" {
 				if id, ok := e.Y.(*ast.Ident); ok {
 					if _, isNil := f.p.info.ObjectOf(id).(*types.Nil); isNil && (e.Op == token.EQL || e.Op == token.NEQ) {
@@ -3136,6 +3159,40 @@ func (f *fnCtx) call(e *ast.CallExpr) string {
 	fn := f.p.calledFunc(e)
 	if fn == nil {
 		fail("call of a function value")
+	}
+	if fn.Pkg() == f.p.pkg && f.self != nil && f.p.u.loggedFuncs[fn.Name()] && fn.Type().(*types.Signature).Recv() == nil {
+		// an untranslated function of this package that is handed the receiver: logged, no result
+		if len(e.Args) != 1 || fn.Type().(*types.Signature).Results().Len() != 0 {
+			fail("logged function %s with other arguments than the receiver, or with results", fn.Name())
+		}
+		if id, ok := e.Args[0].(*ast.Ident); !ok || f.p.info.ObjectOf(id) != f.self {
+			fail("logged function %s called on something other than the receiver", fn.Name())
+		}
+		if len(f.cond) > 0 {
+			fail("call under a short-circuit operator")
+		}
+		sn := f.nameOf(f.self)
+		callsF := fmt.Sprintf("%s_calls %s", f.selfT, sn)
+		line := fmt.Sprintf("let %s := set_%s_calls %s (%s ++ [OCall []%%N %s []]) in", sn, f.selfT, sn, callsF, bytesLit(fn.Name()))
+		f.pre = append(f.pre, func(k string) string { return line + "\n" + k })
+		return "tt"
+	}
+	if fn.Pkg() != nil && fn.Pkg() != f.p.pkg {
+		if mod, ok := f.p.u.depUnits[fn.Pkg().Path()]; ok {
+			// translated by another unit (same Go name there); its oracle / fuel parameters are not supported here
+			if len(f.cond) > 0 {
+				fail("call under a short-circuit operator")
+			}
+			var as []string
+			for _, a := range e.Args {
+				as = append(as, paren(f.expr(a)))
+			}
+			code := mod + "." + coqIdent(fn.Name()) + " " + strings.Join(as, " ")
+			t := f.tmp("r")
+			bnd := f.m("bind")
+			f.pre = append(f.pre, func(k string) string { return fmt.Sprintf("%s %s (fun %s =>\n%s)", bnd, paren(code), t, k) })
+			return t
+		}
 	}
 	if fn.Pkg() == f.p.pkg && f.p.valFn[fn] {
 		var as []string
